@@ -97,6 +97,11 @@ class CSet(object):
             return x.copy() if v <= 0.0 else x - (v / self.a.dot(self.a)) * self.a
         return np.minimum(np.maximum(x, self.l), self.u)
 
+    def proj_inplace(self, x):
+        """The same projection written the other legitimate way: the argument is overwritten and returned."""
+        x[...] = self.proj(x)
+        return x
+
     def dist(self, x):
         if self.t == "ball":
             return max(0.0, np.linalg.norm(x - self.c) - self.r)
